@@ -27,6 +27,7 @@ func RunC02(tier string) int {
 		r := rng.Derive(uint64(run.Seed), "C02", fmt.Sprint(i))
 		pf := spec.DefaultProfile()
 		pf.Multiplatform = r.Chance(1, 2)
+		pf.Tests = r.Chance(1, 2) // test targets: some builds of the history are `grog test` invocations
 		s := spec.Gen(r, pf)
 		gcfg := randCfg(r)
 		cfg := BuildCfg{EnableCache: true}
@@ -108,10 +109,21 @@ func RunC02(tier string) int {
 			if name == "noop" || name == "relocate-checkout" || name == "env-perturbed" || name == "switch-platform" {
 				ext = name
 			}
-			p, obs, vs, err := env.Step(bo, cfg, ext, false)
+			isTest := false
+			if pf.Tests && r.Chance(1, 3) {
+				// the same caching rules hold for what `grog test` selects (test targets and
+				// their dependency closure)
+				bo.Cmd, isTest = "test", true
+				bo.Patterns = nil
+				run.Count("grog_test_invocations", 1)
+			}
+			p, obs, vs, err := env.Step(bo, cfg, ext, isTest)
 			if err != nil {
 				run.Infra(err.Error())
 				return
+			}
+			if isTest && len(p.Selected) == 0 {
+				continue // no test target in this workspace: grog test reports that nothing matches
 			}
 			run.Eval(1)
 			run.Count("builds", 1)
